@@ -83,6 +83,20 @@ pub fn dress(scn: &mut Scenario, rng: &mut Rng, consistent_chain: bool) {
             bytes: Bytes(b"unrelated".to_vec()),
         });
     }
+    if rng.chance(1, 4) {
+        let step = *rng.pick(&[900u64, 4000, 11_000, 86_400_000]);
+        for r in scn.runs.iter_mut() {
+            if r.plan.clock_step_ms.is_none() {
+                r.plan.clock_step_ms = Some(step);
+            }
+        }
+    }
+    if rng.chance(1, 5) {
+        let v = rng.range(1, 2) as u8;
+        for r in scn.runs.iter_mut() {
+            r.verbosity = v;
+        }
+    }
     if consistent_chain {
         for r in scn.runs.iter_mut() {
             if !r.verify && r.start.map(|s| s >= scn.base_height + 1).unwrap_or(false) && rng.chance(1, 3) {
